@@ -229,7 +229,7 @@ func copyDir(src, dst string) error {
 func buildWorld() (*env, []*cl.BlockInfo, error) {
 	w := cl.Init(cl.DefaultOptions())
 	e := &env{w: w}
-	trunk := w.Trunk(w.Genesis, 20)
+	trunk := w.Trunk(w.Genesis, 24)
 	var fans []*types.Tx
 	for _, h := range []int{4, 8} {
 		rew := trunk[h].RewardOuts()
@@ -242,6 +242,13 @@ func buildWorld() (*env, []*cl.BlockInfo, error) {
 			e.roots = append(e.roots, cl.Out{Tx: f, Pos: i})
 		}
 	}
+	// root nRoots is a coinbase (epoch reward) output itself, mature at the tip: the store keeps a spent
+	// coinbase output as a spent entry instead of deleting it
+	cb := trunk[12].RewardOuts()
+	if len(cb) == 0 {
+		return nil, nil, fmt.Errorf("no reward output at height 13")
+	}
+	e.roots = append(e.roots, cb[0])
 	b := w.NewBlock(trunk[len(trunk)-1], fans, cl.BlockOpt{})
 	e.tip = b
 	return e, append(trunk, b), nil
@@ -771,7 +778,15 @@ func perm(r *Rng, n int) []int {
 func genUniverse(r *Rng) (string, []TxSpec) {
 	roots := perm(r, nRoots)
 	nextRoot := 0
-	root := func() string { nextRoot++; return rootRef(roots[(nextRoot-1)%nRoots]) }
+	usedCb := false
+	root := func() string {
+		if !usedCb && r.Chance(25) {
+			usedCb = true
+			return rootRef(nRoots) // the coinbase root
+		}
+		nextRoot++
+		return rootRef(roots[(nextRoot-1)%nRoots])
+	}
 	var u []TxSpec
 	add := func(s TxSpec) int { u = append(u, s); return len(u) }
 	shape := []string{"families", "conflicts", "random", "random", "chain-and-conflict", "multi-parent"}[r.Intn(6)]
